@@ -194,11 +194,11 @@ class SqlStorage(MutableMapping):
             with sqlite3.connect(self.dbfile) as db:
                 names = {}
                 if return_metadata:
-                    for dbid, name, uri in db.execute("SELECT id, name, uri FROM pyro_names WHERE name LIKE ?", (prefix + '%',)).fetchall():
+                    for dbid, name, uri in db.execute("SELECT id, name, uri FROM pyro_names WHERE substr(name, 1, ?) = ?", (len(prefix), prefix)).fetchall():
                         metadata = {m[0] for m in db.execute("SELECT metadata FROM pyro_metadata WHERE object=?", (dbid,)).fetchall()}
                         names[name] = uri, metadata
                 else:
-                    for name, uri in db.execute("SELECT name, uri FROM pyro_names WHERE name LIKE ?", (prefix + '%',)).fetchall():
+                    for name, uri in db.execute("SELECT name, uri FROM pyro_names WHERE substr(name, 1, ?) = ?", (len(prefix), prefix)).fetchall():
                         names[name] = uri
                 return names
         except sqlite3.DatabaseError as e:
@@ -218,10 +218,11 @@ class SqlStorage(MutableMapping):
                           .format(seq=",".join(['?'] * len(metadata_any)))
                 else:
                     # all of the given metadata
-                    params = list(metadata_all)
-                    params.append(len(metadata_all))
+                    params = list(set(metadata_all))
+                    num_tags = len(params)
+                    params.append(num_tags)
                     sql = "SELECT id, name, uri FROM pyro_names WHERE id IN (SELECT object FROM pyro_metadata WHERE metadata IN ({seq}) " \
-                          "GROUP BY object HAVING COUNT(metadata)=?)".format(seq=",".join(['?'] * len(metadata_all)))
+                          "GROUP BY object HAVING COUNT(metadata)=?)".format(seq=",".join(['?'] * num_tags))
                 result = db.execute(sql, params).fetchall()
                 if return_metadata:
                     names = {}
